@@ -194,6 +194,20 @@ def gen_kernel_line(rng):
             for k in range(nl):
                 lvs += [f"v{200 + k}", rng.pick(prenames), rng.pick(defs) if defs else "i1"]
             return ["lvnw " + " ".join(pre + ["~", str(nl)] + lvs + ["|"] + toks)]
+        if rng.chance(1, 2) and "k" not in toks:
+            # the same kind of block through DCE: the value used afterwards is one of the top-level definitions / parameters
+            depth, tops = 0, ["v0", "v1"]
+            for k_, tk in enumerate(toks):
+                if tk in ("[", "{"): depth += 1
+                elif tk in ("]", "}"): depth -= 1
+                elif tk == "b" and depth == 0: tops.append(toks[k_ + 1])
+                elif tk == ";" : pass
+            # names bound by final assignments are top-level too
+            for k_, tk in enumerate(toks):
+                if tk == ";":
+                    n_ = int(toks[k_ + 1])
+                    tops += [toks[k_ + 2 + 3 * q] for q in range(n_)]
+            return [f"dcel {rng.pick(tops)} " + " ".join(toks)]
         return ["lvn " + " ".join(toks)]
     if kind == "dce":
         toks, nv = [], 2
@@ -449,11 +463,12 @@ def nontrivial_kernel(line, ans):
     if k == "ccp": return ans.startswith("bind") or ans != "stmt " + " ".join(line.split()[1:])
     if k == "ivloop": return ans.startswith("out ") and not ans.startswith("out - ")
     if k == "srloop": return ans.startswith("out ") and ans != "out -"
-    if k in ("licm", "cse", "licmk", "csek"): return ans != "hoisted -"
+    if k in ("licm", "cse", "licmk", "csek"): return not ans.startswith("hoisted -")
     if k == "inl": return " m:" in ans
     if k == "lvnw": return True
     if k == "ivuse": return True
     if k in ("dceuse", "dceloop"): return True
+    if k == "dcel": return len(ans.split()) < len(line.split()) - 2
     if k == "algopt": return ans == "fired"
     if k == "lvn": return ans.count(" b ") + ans.startswith("b ") < line.count(" b ")
     if k == "dce": return line.count(" b ") > (0 if ans == "kept -" else ans.count(",") + 1)
@@ -1924,6 +1939,13 @@ def run(ctx):
     if nk:
         # deterministic: every position at which a nested loop may mention the outer counter
         lines += [f"ivuse {pos} {b}" for pos in ("none", "init", "loopvalue", "guard", "body", "print", "ip", "nt", "ix", "cs", "la", "st", "cl") for b in (3, 6)]
+        # DCE through branches: dead / live definitions before, inside and after SingleIf / IfElse, dead final assignments
+        lines += ["dcel v6 b v2 add v0 i1 [ v0 0 b v3 mul v2 v2 ] { v1 b v4 add v2 i1 p v4 | ; 2 v5 v4 i0 v6 v2 v2 }",
+                  "dcel v0 b v2 div v0 v1 { v1 b v4 add v2 i1 | b v7 mod v0 v1 ; 1 v5 v4 i0 } [ v1 1 p v0 ]",
+                  "dcel v9 b v2 add v0 i1 { v1 | ; 1 v9 v2 i3 }",
+                  "dcel v0 b v2 add v0 i1 { v1 b v3 mul v2 i2 | b v4 mul v2 i3 ; 1 v5 v3 v4 } [ v1 0 b v6 add v5 i1 ]",
+                  "dcel v5 b v2 add v0 i1 { v1 b v3 mul v2 i2 | b v4 mul v2 i3 ; 1 v5 v3 v4 } [ v1 0 b v6 add v5 i1 p v6 ]",
+                  "dcel v1 [ v0 1 b v2 add v0 i1 p v2 ] [ v0 0 b v3 div v1 v0 ] [ v1 0 ]"]
         # DCE's use collector: the probed loop variable v1 is read in exactly ONE syntactic position (or none)
         uses = {"callee": "ic v1 v2 1 v0 p v2", "arg": "cr v2 1 v1 p v2", "ctx": "cl v2 v1 ic v2 v3 1 v0 p v3", "field": "st v2 2 v1 i1 cr _ 1 v2",
                 "ptr": "ix v2 v1 0 p v2", "cast": "cs v2 v1 p v2", "isp": "ip v2 v1 p v2", "not": "nt v2 v1 p v2", "operand": "b v2 add v1 i1 p v2",
@@ -2070,7 +2092,7 @@ def run(ctx):
         "source_program_lines_compared": sstats["lines"],
         "source_programs_changed_by_pass": len(sstats["changed"]),
         "source_sample": src_sample,
-        "rule": "kernel lines (fold/tgt/merge/trip/flex/order/unwrap/ccp/ivloop/ivorig/srloop/srorig/dce/licm/licmk/lvn/lvnw/cse/csek/inl/ivuse/algopt/dceuse/dceloop) over a boundary-heavy 32-bit distribution "
+        "rule": "kernel lines (fold/tgt/merge/trip/flex/order/unwrap/ccp/ivloop/ivorig/srloop/srorig/dce/licm/licmk/lvn/lvnw/cse/csek/inl/ivuse/algopt/dceuse/dceloop/dcel) over a boundary-heavy 32-bit distribution "
                 "(0, +-1, +-2, MIN, MIN+1, MAX, MAX-1, powers of two, sqrt(MAX), random) answered by the real functions/passes and by the Lean model; "
                 "generated int-only MIR programs (straight-line, if/else with phis, single-if, counting loops of all four guard kinds and both stride "
                 "signs, empty loops for the closed form, IV-elimination candidates, loops with 2-3 basic induction variables with distinct literal/parameter starts and derived variables of any of them live in prints/calls/accumulators, duplicated pure computations whose copy feeds every consuming position (call argument, operand, condition, if/else final assignment, break value, loop initial/loop value, return value), helper functions for inlining) run before/after each single pass, "
@@ -2101,12 +2123,13 @@ def run(ctx):
                                    "cse_hoist_order", "inlineBody_preserves", "inline_preserves", "ivelim_negative_multiplier_fixed",
                                    "phases_disjoint", "rounds_invariant", "lowering_disjoint", "unused_counter_irrelevant",
                                    "licmF_hoisted_invariant", "licmF_kept_defs_variant", "cseC_never_hoists_div", "algopt_sound",
-                                   "dceU_kept_uses_live", "dceU_removed_not_read", "dropped_loop_var_unused"],
-        "pending": ["CSE: only trap-freedom/silence of the hoisted prefix is proved (cse_hoist_order); value equivalence of the rewritten branches is validated only",
+                                   "dceU_kept_uses_live", "dceU_removed_not_read", "dropped_loop_var_unused",
+                                   "execL_irrelS", "fresh_prefix_preserves", "cse_preserves", "dceS_preserves", "dceL_preserves"],
+        "pending": ["CSE is proved for an if/else whose branches are statement blocks (cse_preserves); if/else nested inside branches and loops are validated only",
                     "lvn: proved for blocks of Binary/call/Break, SingleIf and IfElse (with final assignments) over statement blocks, and for a While over such a body (initial values, loop values, every fuel); deeper nesting (loops inside branches, branches inside branches) is validated only",
                     "inlining: proved for a callee whose body is a block of Binary/call statements (fresh-name renaming, parameter substitution, return move); callee bodies with control flow, the cost model and recursion guards are validated only",
                     "scalar replacement: no Lean model; validated by the interpreter on a deterministic struct/closure family (MIR level) and on the rich source family, per pass and per configuration",
-                    "dce_preserves / licm for nested if/while (proved for straight-line blocks / loop bodies of Binary + call statements)",
+                    "DCE is proved through SingleIf / IfElse over statement blocks (dceL_preserves) and for the While arm's loop-variable retention (dropped_loop_var_unused); the semantic statement for DCE of a While body (fuel induction) and deeper nesting are validated only",
                     "LICM permutation equivalence (hoisted ++ kept behaves like the body); only trap-freedom of the hoisted prefix is proved",
                     "inlining, LVN, scalar replacement, unused-name elimination, CCP/loop drivers: validated, not modelled"],
     })
